@@ -13,7 +13,7 @@
 
     Milestones: M1 literals/variables/unary/binary/comparison/and/or, definitions, print!, assert;
     M2 if-expression, if!, for!, while! with a mutable counter; M3 functions, procedures, lambdas, calls;
-    M4 lists, len, abs, index, ranges, tuple/list pattern definitions. *)
+    M4 lists, len, abs, index, ranges, tuple/list pattern definitions (flat [SPat]; nested with discards [SNPat]). *)
 From Coq Require Import ZArith List Bool.
 From ErgV Require Import Common.Sx.
 Import ListNotations.
@@ -50,6 +50,13 @@ Inductive expr : Type :=
 | ERange (w : wrapc) (lo hi : expr)                           (* lo..<hi, only as a for! iterable *)
 | ETuple (w : wrapc) (es : list expr).                        (* only as rhs of a tuple pattern *)
 
+(* nested destructuring pattern: variable, discard `_`, tuple pattern, list pattern *)
+Inductive pat : Type :=
+| PVar (x : Z)
+| PDiscard
+| PTuple (ps : list pat)
+| PList (ps : list pat).
+
 Inductive stmt : Type :=
 | SExpr (e : expr)                                            (* value of a function body *)
 | SPrint (es : list expr)
@@ -64,7 +71,8 @@ Inductive stmt : Type :=
 | SFun (f : Z) (is_proc : bool) (params : list (Z * ty * option expr)) (ret : ty) (body : list stmt)
 | SLam (f : Z) (params : list (Z * ty)) (e : expr)
 | SPat (is_list : bool) (ids : list Z) (e : expr)
-| SPCall (f : Z) (args : list expr).
+| SPCall (f : Z) (args : list expr)
+| SNPat (p : pat) (e : expr).                                  (* (a, (_, c)) = e ;  [p, [_, q]] = e *)
 
 Definition program := list stmt.
 
@@ -161,6 +169,19 @@ Fixpoint dec_expr (fuel : nat) (x : sx) : option expr :=
     end
   end.
 
+Fixpoint dec_pat (fuel : nat) (x : sx) : option pat :=
+  match fuel with
+  | O => None
+  | S f =>
+    match x with
+    | SL [SZ 0; SZ id] => Some (PVar id)
+    | SL [SZ 1] => Some PDiscard
+    | SL [SZ 2; SL ps] => option_map PTuple (all_some (map (dec_pat f) ps))
+    | SL [SZ 3; SL ps] => option_map PList (all_some (map (dec_pat f) ps))
+    | _ => None
+    end
+  end.
+
 Definition dec_param (f : nat) (p : sx) : option (Z * ty * option expr) :=
   match p with
   | SL [SZ id; t; SL []] => do* t' <- dec_ty f t; Some (id, t', None)
@@ -196,6 +217,7 @@ Fixpoint dec_stmt (fuel : nat) (x : sx) : option stmt :=
         option_map (SLam id ps') (dec_expr f e)
       | 12, [SZ k; SL ids; e] => do* ids' <- dec_zs ids; option_map (SPat (negb (k =? 0)) ids') (dec_expr f e)
       | 13, [SZ id; SL args] => option_map (SPCall id) (all_some (map (dec_expr f) args))
+      | 14, [p; e] => do* p' <- dec_pat f p; option_map (SNPat p') (dec_expr f e)
       | _, _ => None
       end
     | _ => None
